@@ -217,6 +217,12 @@ func (w *World) incarnation() (finished bool) {
 				panic(r)
 			}
 			// simulated crash: freeze everything of this incarnation
+			if w.OnCrash != nil && w.Violation == nil {
+				if v := w.OnCrash(w); v != nil && !w.Known(v) {
+					v.Step = w.step
+					w.Violation = v
+				}
+			}
 			w.mu.Lock()
 			w.crashed = true
 			for _, r := range w.pendReq {
@@ -234,7 +240,7 @@ func (w *World) incarnation() (finished bool) {
 			w.ss.clockBase += time.Since(w.start)
 			w.inc++
 			resetProcessMemo()
-			finished = false
+			finished = w.Violation != nil
 		}
 	}()
 	w.Incs++
@@ -253,9 +259,10 @@ func (w *World) incarnation() (finished bool) {
 }
 
 // RunScenario executes one run to completion (all incarnations).
-func RunScenario(t *testing.T, sc *Scenario, tape *Tape, salt uint64, known []KnownFinding) *Result {
+func RunScenario(t *testing.T, sc *Scenario, tape *Tape, salt uint64, known []KnownFinding, plan *FaultPlan) *Result {
 	w := NewWorld(tape)
 	w.KnownFindings = known
+	w.Plan = plan
 	GlobalSetup(w, salt)
 	sc.Init(w)
 	for i := 0; i < 64; i++ {
